@@ -77,6 +77,8 @@ class Ref:
         self.globals = Env(None); self.pending = {}; self.forcing = set()
         self.enums = {}; self.blobs = {}
         self.install()
+        from syltsem import stdmodel
+        stdmodel.install(self)
 
     def branch(self, c):
         if isinstance(c, bool): return c
